@@ -1,8 +1,25 @@
 import AFV.Driver.Proto
+import AFV.Driver.NestJson
 namespace AFV.Driver.C05
-open Lean AFV.Proto
+open Lean AFV.Proto AFV.Nest AFV.Driver.NestJson
 
-/-- Handler for property C05 requests (stub: not implemented yet). -/
-def handle (_req : Json) : Json := err "unimplemented"
+/-- ops:
+  {"op":"eval","arch":…,"workload":…,"mapping":…}
+     → {"analytic": result|null, "oversubscribed": bool, "wf": bool, "exec": result}
+  (formats in `AFV/Driver/NestJson.lean`) -/
+def handle (req : Json) : Json :=
+  match (field? req "op").bind getStr? with
+  | some "eval" =>
+    match (field? req "arch").bind arch?, (field? req "workload").bind workload?, (field? req "mapping").bind mapping? with
+    | some arch, some (wq, wn), some m =>
+      let an := analytic arch wq (castMapping m)
+      let ex := AFV.NestExec.exec arch wq wn m
+      Json.mkObj [
+        ("analytic", match an with | some r => resultJson r | none => Json.null),
+        ("oversubscribed", match an with | some r => Json.bool (r.oversubscribed arch) | none => Json.null),
+        ("wf", Json.bool (WF arch wn m)),
+        ("exec", execJson ex)]
+    | _, _, _ => err "malformed"
+  | _ => err "bad-op"
 
 end AFV.Driver.C05
